@@ -166,3 +166,12 @@ def dval(d, base):
 
 def dlen(d):
     return len(d)
+
+
+def frac_den(x):
+    """denominator (lowest terms, positive) of an int or Fraction"""
+    return x.denominator
+
+
+def frac_num(x):
+    return x.numerator
